@@ -146,6 +146,9 @@ for _n, _desc in (("c06_hex32_top_i64_f", "i64 target, 0x XY ffff…f (30 f)"), 
     H(_n, "parse_scalars", ["C06"], tier=("quick" if _n == "c06_hex32_top_i64_f" else "thorough"), expect_s=900, timeout=2700, functions=INT_FUNCS,
       claim="128-bit boundary of the u128 -> i128 -> T narrowing: a 32-digit hex magnitude is accepted iff it fits the signed target (never wrapped to a small negative number), and then exact",
       bound="two most significant hex digits symbolic (all 256 values), 30 lower digits concrete: " + _desc, assumes=[STD_STUBS])
+H("c06_oct43_top_u128", "parse_scalars", ["C06", "C01"], tier="thorough", expect_s=1500, timeout=4500, mem_gb=20, weight=2, functions=INT_FUNCS,
+  claim="43-digit octal literals (the first length at which 3 bits per digit exceed 128 bits): accepted iff the value fits u128, exact, and no arithmetic overflow panic",
+  bound="0o + symbolic top octal digit + 42 concrete digits '7'", assumes=[STD_STUBS])
 for _n, _N, _tier in (("c06_bool_3", 3, "quick"), ("c06_bool_4", 4, "quick"), ("c06_bool_5", 5, "thorough")):
     H(_n, "parse_scalars", ["C06", "C01"], tier=_tier, expect_s=60 * (_N - 2), functions=["parse_scalars::parse_yaml11_bool"],
       claim="Ok(b) iff the trimmed token is, case-insensitively, one of true/yes/y/on (b=true) or false/no/n/off (b=false)",
@@ -156,7 +159,7 @@ H("c06_null_4", "parse_scalars", ["C06"], expect_s=60, functions=["parse_scalars
 H("c06_leading_zero_4", "parse_scalars", ["C06"], expect_s=60, functions=["parse_scalars::leading_zero_decimal"],
   claim="true iff after trim and one optional sign the token starts with 0, has a further character and that is not a radix letter",
   bound="every ASCII string of length 0..4", assumes=[STD_STUBS])
-for _n, _N, _tier in (("c06_float_special_4", 4, "quick"), ("c06_float_special_5", 5, "quick"), ("c06_float_special_6", 6, "thorough")):
+for _n, _N, _tier in (("c06_float_special_4", 4, "quick"), ("c06_float_special_5", 5, "quick"), ("c06_float_special_6", 6, "quick")):
     H(_n, "parse_scalars", ["C06"], tier=_tier, expect_s=200, timeout=1500, functions=["parse_scalars::parse_yaml12_float::<f64>", "core::num::dec2flt (real libcore code, on non-digit tokens)"],
       claim="over the alphabet of the special float forms: .nan/+.nan/-.nan -> NaN, .inf/+.inf -> +inf, -.inf -> -inf in every letter case; every other token is rejected unless Rust's own float syntax ([+-]?(inf|nan)) admits it - in particular sign combinations like -+.inf are rejected",
       bound="all %d-byte tokens over {. + - n a i f N A I F}; decimal->binary conversion of digit strings is outside" % _N,
